@@ -58,12 +58,34 @@ func TestCheck(t *testing.T) {
 	if thorough {
 		dagCfgs = []dagCfg{{4, true, 2, 2}}
 	}
+	// prefixes enumerates the fixed leading rows of a scenario: the 4-slot
+	// families are split by the first two rows so that shards balance.
+	prefixes := func(n, first int) [][]int {
+		var out [][]int
+		for a := 0; a < first; a++ {
+			if n < 4 {
+				out = append(out, []int{a})
+				continue
+			}
+			for b := 0; b < nopts(n); b++ {
+				out = append(out, []int{a, b})
+			}
+		}
+		return out
+	}
+	rowsName := func(fixed []int) string {
+		s := ""
+		for i, f := range fixed {
+			s += fmt.Sprintf("/row%d=%d", i, f)
+		}
+		return s
+	}
 	for _, c := range dagCfgs {
 		for _, impl := range []string{"map", "upgrading"} {
-			for row0 := 0; row0 < nopts(c.n); row0++ {
-				c, impl, row0 := c, impl, row0
-				add(fmt.Sprintf("dag/%s/n%d/row0=%d", impl, c.n, row0), false, func(r *explore.Run, sc string) {
-					dagBody(r, rep, sc, impl, c.n, row0, c.all, c.modes, c.variants)
+			for _, fixed := range prefixes(c.n, nopts(c.n)) {
+				c, impl, fixed := c, impl, fixed
+				add(fmt.Sprintf("dag/%s/n%d%s", impl, c.n, rowsName(fixed)), false, func(r *explore.Run, sc string) {
+					dagBody(r, rep, sc, impl, c.n, fixed, c.all, c.modes, c.variants)
 				})
 			}
 		}
@@ -126,10 +148,10 @@ func TestCheck(t *testing.T) {
 	}
 	for _, c := range lockCfgs {
 		for _, flags := range []int{0, 1} {
-			for row0 := 0; row0 < nopts(c.n); row0++ {
-				c, flags, row0 := c, flags, row0
-				add(fmt.Sprintf("lock/flags%d/n%d/row0=%d", flags, c.n, row0), true, func(r *explore.Run, sc string) {
-					lockGraphBody(r, rep, sc, flags, c.n, row0, c.all)
+			for _, fixed := range prefixes(c.n, nopts(c.n)) {
+				c, flags, fixed := c, flags, fixed
+				add(fmt.Sprintf("lock/flags%d/n%d%s", flags, c.n, rowsName(fixed)), true, func(r *explore.Run, sc string) {
+					lockGraphBody(r, rep, sc, flags, c.n, fixed, c.all)
 				})
 			}
 		}
@@ -147,10 +169,10 @@ func TestCheck(t *testing.T) {
 		resCfgs = append(resCfgs, resCfg{4, 2})
 	}
 	for _, c := range resCfgs {
-		for row0 := 0; row0 < 1<<c.n; row0++ {
-			c, row0 := c, row0
-			add(fmt.Sprintf("resolve/n%d/row0=%d", c.n, row0), true, func(r *explore.Run, sc string) {
-				resolveBody(r, rep, sc, c.n, row0, c.nCons)
+		for _, fixed := range prefixes(c.n, 1<<c.n) {
+			c, fixed := c, fixed
+			add(fmt.Sprintf("resolve/n%d%s", c.n, rowsName(fixed)), true, func(r *explore.Run, sc string) {
+				resolveBody(r, rep, sc, c.n, fixed, c.nCons)
 			})
 		}
 	}
@@ -173,18 +195,19 @@ func TestCheck(t *testing.T) {
 	}
 	// Spread the heavy families over the shards.
 	list = interleave(list)
+	counting = false
 	for _, sc := range list {
-		if sc.Name == "dag/map/n4/row0=3" || sc.Name == "dag/map/n3/row0=3" {
-			rep.SelfCheck(t, sc, func() { sampled = map[string]bool{} })
+		if sc.Name == "dag/map/n4/row0=3/row1=5" || sc.Name == "dag/map/n3/row0=3" {
+			rep.SelfCheck(t, sc, nil)
 			break
 		}
 	}
 	for _, sc := range list {
 		if sc.Name == "upgrade/c0/installed=v1.1.0" {
-			rep2 := sc
-			rep.SelfCheck(t, rep2, func() { sampled = map[string]bool{} })
+			rep.SelfCheck(t, sc, nil)
 		}
 	}
+	counting = true
 	rep.RunScenarios(t, list)
 	rep.Write(t)
 }
